@@ -148,6 +148,10 @@ def main():
             if ob.model and os.environ.get("PYVC_MODEL"):
                 for k, v in sorted(ob.model.items()):
                     print(f"        {k} = {v}")
+    slow = sorted(real, key=lambda o: -o.time)[:int(os.environ.get("PYVC_SLOW", "5"))]
+    for o in slow:
+        if o.time > 1.0:
+            print(f"  slow {o.time:6.2f}s {o.backend} {o.name}")
     und = [i for i in infos if i.get("status") != "under contract"]
     print(f"obligations={len(real)} not-discharged={bad} "
           f"undecided-functions={len(und)}")
